@@ -156,28 +156,8 @@ def wrapConn : Conn := { isUsed := true, isRunning := true, maxSent := 3, vs := 
 example : Good 3 wrapConn ∧ oldestNS wrapConn = 32766 ∧ isFull 3 wrapConn.win = true :=
   ⟨⟨by decide, fun _ => ⟨32766, by decide, by decide, by decide, by decide⟩⟩, by decide, by decide⟩
 
-def envPending (sk : Sock) : WEnv where
-  f s := { s with pending := s.pending ++ [sk] }
-  p _ := rfl
-  len _ := rfl
-  conn _ _ := rfl
-
-def envFeed (i : Nat) (bytes : List Nat) : WEnv where
-  f s := s.setConn i { s.conn i with sock := { (s.conn i).sock with chunks := (s.conn i).sock.chunks ++ [bytes] } }
-  p _ := rfl
-  len s := setConn_len _ _ _
-  conn s j := by
-    by_cases hj : j = i
-    · subst hj
-      by_cases hl : j < s.conns.length
-      · rw [conn_setConn _ _ _ hl]
-      · have hs : ∀ c, s.conns.set j c = s.conns := fun c => List.set_eq_of_length_le (Nat.le_of_not_lt hl)
-        have : ∀ c, (s.setConn j c).conn j = s.conn j := by intro c; unfold Slave.conn Slave.setConn; simp only [hs]
-        rw [this]
-    · rw [conn_setConn_ne _ _ _ _ hj]
-
 def demoParams : Params := { k := 2, w := 1, t0 := 10, t1 := 15, t2 := 10, t3 := 20, mode := 0, maxOpen := 0, lowQ := 4, highQ := 4, asduHdr := 6, replies := 0, nSlots := 2 }
-def demoOps : List WOp := [.env (envPending {}), .tick, .env (envFeed 0 [0x68, 4, 7, 0, 0, 0]), .tick, .enqueue [1,1,3,0,1,0,5,0,0,1], .tick, .enqueue [1,1,3,0,1,0,6,0,0,1], .tick, .enqueue [1,1,3,0,1,0,7,0,0,1], .tick]
+def demoOps : List WOp := [.env (lenvPending {}), .tick, .env (lenvFeed 0 [0x68, 4, 7, 0, 0, 0]), .tick, .enqueue [1,1,3,0,1,0,5,0,0,1], .tick, .enqueue [1,1,3,0,1,0,6,0,0,1], .tick, .enqueue [1,1,3,0,1,0,7,0,0,1], .tick]
 /-- non-vacuity on a concrete history: a client connects and sends STARTDT act, three events are enqueued with k = 2 - the
 connection is in use and running, two APDUs are outstanding, the window is full and the third event waits -/
 example : let c := (demoOps.foldl WOp.apply (create demoParams [])).conn 0
